@@ -61,6 +61,10 @@ func IDs() []string {
 	return ids
 }
 
+// Out is the process's original stdout: tool harnesses redirect os.Stdout to silence the tools' own
+// printing, the worker protocol and replay output keep using the real one.
+var Out = os.Stdout
+
 // VerifDir is /verif unless overridden (used by vp run snapshots).
 func VerifDir() string {
 	if d := os.Getenv("VERIF_DIR"); d != "" {
@@ -186,7 +190,7 @@ func WorkerMain(propID string, seed uint64) int {
 			return 2
 		}
 	}
-	out := bufio.NewWriterSize(os.Stdout, 1<<16)
+	out := bufio.NewWriterSize(Out, 1<<16)
 	emit := func(tag string, v interface{}) {
 		b, _ := json.Marshal(v)
 		out.WriteString(tag)
@@ -311,21 +315,21 @@ func ReplayMain(path string) int {
 	kf = kf.Without(p.ID, rf.Violation)
 	res := Execute(p, rf.RunIndex, t, kf, true)
 	for _, ln := range res.Run.Trace {
-		fmt.Println("  " + ln)
+		fmt.Fprintln(Out, "  "+ln)
 	}
 	if res.Abort != "" {
-		fmt.Printf("harness abort: %s\n", res.Abort)
+		fmt.Fprintf(Out, "harness abort: %s\n", res.Abort)
 		return 2
 	}
 	if len(res.Run.Viol) == 0 {
-		fmt.Printf("replay: no violation (expected class %s)\n", rf.Violation.Class)
+		fmt.Fprintf(Out, "replay: no violation (expected class %s)\n", rf.Violation.Class)
 		return 0
 	}
 	v := res.Run.Viol[0]
-	fmt.Printf("replayed: class=%s msg=%s\n", v.Class, v.Msg)
-	fmt.Printf("VIOLATION property=%s replay=%s\n", rf.Property, path)
+	fmt.Fprintf(Out, "replayed: class=%s msg=%s\n", v.Class, v.Msg)
+	fmt.Fprintf(Out, "VIOLATION property=%s replay=%s\n", rf.Property, path)
 	if v.Class != rf.Violation.Class {
-		fmt.Printf("replay: class differs from recorded %s\n", rf.Violation.Class)
+		fmt.Fprintf(Out, "replay: class differs from recorded %s\n", rf.Violation.Class)
 		return 3
 	}
 	return 1
